@@ -254,6 +254,16 @@ fn ext_bytes(ty: u16, body: &[u8]) -> Vec<u8> {
 }
 
 /// parameter tape: [type_hi, type_lo]
+pub const FUTURE_EXT_BODIES: [(&str, &[u8]); 7] = [
+    ("ech-outer", &[0x00, 0x00, 0x01, 0x00, 0x01, 0x2a, 0x00, 0x00, 0x00, 0x01, 0x22]),
+    ("ech-outer-with-enc", &[0x00, 0x00, 0x01, 0x00, 0x01, 0x07, 0x00, 0x20, 1, 2, 3, 4, 5, 6, 7, 8, 9, 10, 11, 12, 13, 14, 15, 16, 17, 18, 19, 20, 21, 22, 23, 24, 25, 26, 27, 28, 29, 30, 31, 32, 0x00, 0x03, 0xaa, 0xbb, 0xcc]),
+    ("ech-inner", &[0x01]),
+    ("compress-certificate", &[0x02, 0x00, 0x02]),
+    ("connection-id", &[0x04, 0xc1, 0xc2, 0xc3, 0xc4]),
+    ("quic-transport-parameters", &[0x01, 0x02, 0x67, 0x10, 0x03, 0x02, 0x45, 0xc0, 0x0f, 0x00]),
+    ("application-settings", &[0x00, 0x03, 0x02, 0x68, 0x32]),
+];
+
 fn classify(t: &mut Tape, obs: &mut Obs) -> R {
     let ty = t.u16();
     let known = KNOWN_EXT_TYPES.contains(&ty);
@@ -264,10 +274,18 @@ fn classify(t: &mut Tape, obs: &mut Obs) -> R {
     obs.class(if known { "known" } else if grease { "grease" } else { "unknown" });
     let valid = valid_body_for(ty);
     let five = [0u8, 3, 1, 2, 3];
-    let bodies: Vec<(&str, &[u8])> = match &valid {
+    // ... and bodies shaped like extensions the crate does not decode (encrypted_client_hello outer form, compress_certificate,
+    // connection_id, delegated_credential, QUIC transport parameters, application_settings): under an unregistered type they are data
+    // like any other, and the type comes back unchanged
+    let mut bodies: Vec<(&str, &[u8])> = match &valid {
         Some((_, b)) => vec![("empty", &[][..]), ("five", &five[..]), ("valid", b.as_slice())],
         None => vec![("empty", &[][..]), ("five", &five[..])],
     };
+    if !known {
+        for (n, b) in FUTURE_EXT_BODIES {
+            bodies.push((n, b));
+        }
+    }
     for (bn, body) in &bodies {
         let mut buf = ext_bytes(ty, body);
         buf.extend_from_slice(&[0xde, 0xad]);
